@@ -131,6 +131,18 @@ fn reorder_like_struct(js: &str, sorted_tokens: Vec<String>) -> Vec<String> {
 
 fn c18_for<T: Ser>(out: &mut Out, tier: &str, rng: &mut Rng) {
     let reps = if tier == "thorough" { 25 } else { 6 };
+    // counts beyond 2^53 (not exactly representable as f64): reachable by repeated self-merges
+    if T::NAME.starts_with('H') && out.next_case() {
+        let mut h = T::fresh(rng);
+        for i in 0..40 { h.step(-2.9 + 0.15 * i as f64, 1.0); }
+        for _ in 0..54 { let c = h.clone(); if !h.merge_with(&c) { break; } }
+        for i in 0..9 { h.step(-2.9 + 0.7 * i as f64, 1.0); }
+        if let Some(r) = round_trip(out, &h) {
+            let (mut a, mut b) = (h.clone(), r);
+            for i in 0..5 { a.step(0.3 * i as f64, 1.0); b.step(0.3 * i as f64, 1.0); }
+            out.x(words(&a) == words(&b), || format!("{}: continuing after a round trip with counts beyond 2^53 differs", T::NAME));
+        }
+    }
     for rep in 0..reps {
         if !out.next_case() { continue; }
         let n = if rep == 0 { 7 } else { 1 + rng.below(if T::NAME.starts_with('H') && T::NAME.len() > 3 { 30 } else { 60 }) };
